@@ -985,6 +985,7 @@ fn grid() {
                 5 => { let mut o = bumpalo::vec![in &bump; x]; v.append(&mut o); }
                 6 => v.extend_from_slices_copy(&[&[x]]),
                 7 => v.push(x),
+                9 => { v.try_reserve(1).unwrap(); v.push(x); }
                 _ => v.reserve(1),
             }
             if how == 8 { unsafe { v.set_len(v.len() + 1) }; }
@@ -992,10 +993,10 @@ fn grid() {
             if v.capacity() != cap { moves += 1; cap = v.capacity(); }
         }
         let bound = (usize::BITS - steps.leading_zeros()) as usize + 2;
-        let name = ["resize", "extend_once", "extend_from_slice", "extend_from_slice_copy", "insert", "append", "extend_from_slices_copy", "push", "reserve_one"][how];
+        let name = ["resize", "extend_once", "extend_from_slice", "extend_from_slice_copy", "insert", "append", "extend_from_slices_copy", "push", "reserve_one", "try_reserve_one"][how];
         println!("R vec_growth_by_{} es=4 steps={} reallocs={} bound={}", name, steps, moves, bound);
     }
-    for how in [0usize, 1, 2, 3, 4, 5, 6, 8] { growth_by(how, 1500); }
+    for how in [0usize, 1, 2, 3, 4, 5, 6, 8, 9] { growth_by(how, 1500); }
     {
         // io::Write for Vec<u8> and String::push_str / insert / extend, one unit at a time
         use std::io::Write;
